@@ -189,6 +189,7 @@ func runC13(c *Ctx) {
 	}
 	// the pipe's read-only facts over real transports
 	runPipeFacts(c)
+	runHookEdgeCases(c)
 }
 
 // the id allocator driven directly at every interesting counter position (wrap-arounds, ids in use ahead)
